@@ -88,11 +88,12 @@ func partxOwnersRedisCLI(n int) []int {
 func init() {
 	vsched.Register(&vsched.Harness{
 		Name: "partx", Props: []string{"C35"}, Kind: "enum",
-		Doc: "every bundled partition count (PrecomputedSizes) x every tag x every cluster size 1..count; oracle: independent bit-serial CRC16/XMODEM (self-checked on the 123456789 -> 0x31C3 vector) and Redis hash-tag rule: len(tags)==count, tag usable as hash tag (non-empty, no braces, key built around it hashes to the tag's slot), TagSlot == reference slot, slots pairwise distinct, SlotToNode == independent contiguous-assignment table (at every tag slot, and on all 16384 slots for every cluster size 1..4096), per-node partition counts differ by <= 1. Variant even-split: slot ranges differ by at most one slot, larger first (the package's documented model, SlotToNode compared); variant rediscli-create: slot ranges as allocated by redis-cli --cluster create (float32 cursor + lround), balance only",
+		Doc: "every bundled partition count (PrecomputedSizes) x every tag x every cluster size 1..count; oracle: independent bit-serial CRC16/XMODEM (self-checked on the 123456789 -> 0x31C3 vector) and Redis hash-tag rule: len(tags)==count, tag usable as hash tag (non-empty, no braces, key built around it hashes to the tag's slot), TagSlot == reference slot, slots pairwise distinct, SlotToNode == independent contiguous-assignment table (at every tag slot, and on all 16384 slots for every cluster size 1..4096), per-node partition counts differ by <= 1. Variant even-split: slot ranges differ by at most one slot, larger first (the package's documented model, SlotToNode compared); variant rediscli-create: slot ranges as allocated by redis-cli --cluster create (float32 cursor + lround), balance only; variant held-tables: every ordered pair of lookups (A, then B) with A's table re-checked afterwards, and all tables fetched in both orders and held: a table never changes under its holder",
 		Variants: func(tier string) []vsched.Variant {
 			return []vsched.Variant{
 				{Name: "even-split", Shards: 8, BudgetS: 120},
 				{Name: "rediscli-create", Shards: 8, BudgetS: 120},
+				{Name: "held-tables", Shards: 2, BudgetS: 120},
 			}
 		},
 		Enum: func(v vsched.Variant, e *vsched.Enum) {
@@ -114,6 +115,65 @@ func init() {
 			sizes := PrecomputedSizes()
 			if !sort.IntsAreSorted(sizes) || len(sizes) == 0 {
 				e.Fail("sizes-unsorted", fmt.Sprintf("PrecomputedSizes()=%v", sizes), nil)
+			}
+			if v.Name == "held-tables" {
+				// Brokers keep the table they were given for as long as they live, while other brokers ask
+				// for other sizes: every order of two lookups (A then B), with A's table checked again
+				// after B's lookup, plus all tables fetched largest-first / smallest-first and checked at
+				// the end. A table must not change under its holder, and mutating a returned table must
+				// not change what later callers get.
+				var n int64
+				check := func(tags []string, size int, ctx string) {
+					if len(tags) != size {
+						e.Fail("held-table-changed", fmt.Sprintf("%s: table for %d partitions now has %d tags", ctx, size, len(tags)), []string{ctx})
+						return
+					}
+					seen := map[int]int{}
+					for i, tag := range tags {
+						s := int(partxCRC(tag) % 16384)
+						if j, dup := seen[s]; dup {
+							e.Fail("held-table-changed", fmt.Sprintf("%s: held table for %d partitions: tags %d and %d share slot %d", ctx, size, j, i, s), []string{ctx})
+							return
+						}
+						seen[s] = i
+					}
+				}
+				for _, a := range sizes {
+					for _, b := range sizes {
+						n++
+						if !e.Mine(n) {
+							continue
+						}
+						ta, _ := FindTags(a)
+						copyA := append([]string(nil), ta...)
+						tb, _ := FindTags(b)
+						ctx := fmt.Sprintf("FindTags(%d) held, then FindTags(%d)", a, b)
+						e.Case(fmt.Sprintf("pair a>b=%v a==b=%v", a > b, a == b), len(ta)+len(tb))
+						for i := range copyA {
+							if i >= len(ta) || ta[i] != copyA[i] {
+								e.Fail("held-table-changed", fmt.Sprintf("%s: the held table changed at index %d", ctx, i), []string{ctx})
+								break
+							}
+						}
+						check(ta, a, ctx)
+						check(tb, b, ctx)
+					}
+				}
+				for _, order := range []string{"ascending", "descending"} {
+					held := map[int][]string{}
+					for i := range sizes {
+						sz := sizes[i]
+						if order == "descending" {
+							sz = sizes[len(sizes)-1-i]
+						}
+						held[sz], _ = FindTags(sz)
+					}
+					for _, sz := range sizes {
+						check(held[sz], sz, "all tables fetched "+order+" and held")
+					}
+					e.Case("all-held "+order, len(sizes))
+				}
+				return
 			}
 			var n int64
 			for _, size := range sizes {
